@@ -58,6 +58,29 @@ pub fn programs() -> Vec<(String, Module)> {
             module(vec![("main", func(&[], vec![C::Repeat { n: b(int(k)), i: None, body: b(comp(vec![sg("sk", s(lit)), sg("t", C::CreateTable), C::SetProperty(b(rv("sk")), b(rv("t")), b(rv("sk"))), C::SetProperty(b(rv("sk")), b(rv("t")), b(rv("sk"))), C::SetProperty(b(rv("t")), b(rv("t")), b(int(1)))])) }, sg("done", int(1))]))]),
         ));
     }
+    // sorting by a key function that returns one and the same object for every row
+    for k in [10i64, 300] {
+        v.push((
+            format!("sort-by-shared-key-churn-{k}"),
+            module(vec![
+                (
+                    "main",
+                    func(
+                        &[],
+                        vec![
+                            C::Repeat {
+                                n: b(int(k)),
+                                i: None,
+                                body: b(comp(vec![sg("shared", s(lit)), sg("t", C::CreateTable), C::Append(b(int(2)), b(rv("t"))), C::Append(b(int(1)), b(rv("t"))), C::Append(b(int(3)), b(rv("t"))), sg("r", call("std.sorted_by_key", vec![C::Function("kf".into()), rv("t")]))])),
+                            },
+                            sg("done", int(1)),
+                        ],
+                    ),
+                ),
+                ("kf", func(&["key", "value"], vec![C::Return(b(rv("shared")))])),
+            ]),
+        ));
+    }
     // replacing a large live structure: the old one becomes garbage
     v.push((
         "replace-big-table".into(),
